@@ -29,6 +29,7 @@ type entry struct {
 	file    string            // relative to the repository root
 	name    string            // function or method name
 	recv    string            // receiver type name for a method ("" = function); the Gallina name is <recv>_<name>
+	state   bool              // a method translated as a state transformer: the receiver's fields are variables, the result is (receiver', results)
 	as      string            // Gallina name when the Go name is already taken by another package's function
 	externs map[string]extern // functions the body calls that are NOT translated (I/O): they become leading parameters
 }
@@ -43,6 +44,8 @@ type extern struct {
 var whitelist = []entry{
 	{file: "validator.go", name: "min"},
 	{file: "validator.go", name: "ComparePath"},
+	{file: "validator.go", name: "HandleChange", recv: "Validator", state: true},
+	{file: "hardlinks.go", name: "HandleChange", recv: "Hardlinks", state: true},
 	{file: "stat_unix.go", name: "major"},
 	{file: "stat_unix.go", name: "minor"},
 	{file: "filter.go", name: "patternWithoutTrailingGlob"},
@@ -82,6 +85,9 @@ const (
 	kPattern       // *patternmatcher.Pattern -> list N (its String())
 	kUntyped       // untyped integer constant
 	kNil           // the identifier nil
+	kSlice         // []T, T a struct type of the package -> list T (name = T); nil and empty are not distinguished
+	kStrSet        // map[string]struct{} -> list (list N) used as a set (no iteration, no len: order and duplicates unobservable)
+	kFileInfo      // os.FileInfo -> Prims.FileInfo (a record of what its methods return)
 	kTime          // time.Time -> Prims.time: the (sec, nsec) pair given to time.Unix
 	kStruct        // *T, T a struct type of the package whose fields are all in the subset -> a generated Record
 )
@@ -94,7 +100,7 @@ type Ty struct {
 }
 
 func (t Ty) eq(u Ty) bool {
-	return t.k == u.k && t.bits == u.bits && (t.k != kStruct || (t.name == u.name && t.opt == u.opt))
+	return t.k == u.k && t.bits == u.bits && ((t.k != kStruct && t.k != kSlice) || (t.name == u.name && t.opt == u.opt)) && (t.k != kStat || t.opt == u.opt)
 }
 
 func (t Ty) coq() string {
@@ -120,6 +126,12 @@ func (t Ty) coq() string {
 		return ident(t.name)
 	case kTime:
 		return "Prims.time"
+	case kSlice:
+		return "list " + ident(t.name)
+	case kFileInfo:
+		return "Prims.FileInfo Stat.stat"
+	case kStrSet:
+		return "list (list N)"
 	}
 	return "?"
 }
@@ -152,6 +164,12 @@ func (t Ty) String() string {
 		return "*" + t.name
 	case kTime:
 		return "time.Time"
+	case kSlice:
+		return "[]" + t.name
+	case kFileInfo:
+		return "os.FileInfo"
+	case kStrSet:
+		return "map[string]struct{}"
 	}
 	return "invalid"
 }
@@ -199,6 +217,11 @@ var stdFuncs = map[string]struct {
 	"strings.TrimSuffix": {"Prims.strings_TrimSuffix", []Ty{{k: kString}, {k: kString}}, Ty{k: kString}},
 	"time.Unix":          {"Prims.time_Unix", []Ty{{k: kI64}, {k: kI64}}, Ty{k: kTime}},
 	"strings.Split":      {"Prims.strings_Split", []Ty{{k: kString}, {k: kString}}, Ty{k: kStrSlice}},
+	"filepath.Clean":     {"Prims.filepath_Clean", []Ty{{k: kString}}, Ty{k: kString}},
+	"filepath.IsAbs":     {"Prims.filepath_IsAbs", []Ty{{k: kString}}, Ty{k: kBool}},
+	"filepath.Dir":       {"Prims.filepath_Dir", []Ty{{k: kString}}, Ty{k: kString}},
+	"filepath.Base":      {"Prims.filepath_Base", []Ty{{k: kString}}, Ty{k: kString}},
+	"filepath.FromSlash": {"Prims.filepath_FromSlash", []Ty{{k: kString}}, Ty{k: kString}},
 }
 
 type untranslatable struct {
@@ -218,6 +241,7 @@ type variable struct {
 	name string
 	ty   Ty
 	coq  string // Gallina name: the Go name, or name__<k> for a variable that shadows one of an enclosing scope
+	kb   int    // a bool whose value is known on this path (the ok of a type assertion): 1 true, 2 false, 0 unknown
 }
 
 // env: stack of scopes, innermost last; each scope an ordered list of variables
@@ -284,8 +308,35 @@ func (e *env) declare(n ast.Node, name string, ty Ty) error {
 			return nil
 		}
 	}
-	e.scopes[top] = append(e.scopes[top], variable{name, ty, coq})
+	e.scopes[top] = append(e.scopes[top], variable{name: name, ty: ty, coq: coq})
 	return nil
+}
+
+// declareAs: a variable of the outermost scope with a given Gallina name (the fields of a state receiver)
+func (e *env) declareAs(name string, ty Ty, coq string) {
+	e.scopes[0] = append(e.scopes[0], variable{name: name, ty: ty, coq: coq})
+}
+
+// setKnown / known: the value of a bool variable that is fixed on the current path
+func (e *env) setKnown(name string, kb int) {
+	for i := len(e.scopes) - 1; i >= 0; i-- {
+		for j := len(e.scopes[i]) - 1; j >= 0; j-- {
+			if e.scopes[i][j].name == name {
+				e.scopes[i][j].kb = kb
+				return
+			}
+		}
+	}
+}
+func (e *env) known(name string) int {
+	for i := len(e.scopes) - 1; i >= 0; i-- {
+		for j := len(e.scopes[i]) - 1; j >= 0; j-- {
+			if e.scopes[i][j].name == name {
+				return e.scopes[i][j].kb
+			}
+		}
+	}
+	return 0
 }
 
 // retype changes the type of the innermost variable called name (nil-ness refinement under a guard)
@@ -315,6 +366,7 @@ type funcSig struct {
 	params []Ty
 	res    []Ty
 	opt    bool // returns option (contains a loop, or calls such a function)
+	state  bool // state transformer: not callable from other translated functions
 }
 
 type tr struct {
@@ -330,8 +382,10 @@ type tr struct {
 	iota    int // value of iota while a constant's defining expression is translated (-1 otherwise)
 	// records emitted so far (struct types used by translated functions)
 	records    map[string]bool
+	recordZero map[string]bool // the struct has a zero value the translator can write (T_zero)
 	recordDefs []string
 	externs    map[string]extern
+	stateRecv  string // name of the receiver of a state-transformer method ("" otherwise)
 	// per function
 	cur    *funcSig
 	goName string
@@ -449,7 +503,51 @@ func (t *tr) record(n ast.Node, name string) error {
 		}
 	}
 	t.records[name] = true
-	t.recordDefs = append(t.recordDefs, fmt.Sprintf("(* struct %s (used through a pointer; nil is not modelled) *)\nRecord %s := { %s }.\n", name, ident(name), strings.Join(fields, "; ")))
+	def := fmt.Sprintf("(* struct %s (a pointer to it is the record itself unless the function tests it against nil) *)\nRecord %s := { %s }.\n", name, ident(name), strings.Join(fields, "; "))
+	// zero value and one setter per field (for x.f = e on a translated state)
+	var fnames []string
+	var ftys []Ty
+	for _, f := range st.Fields.List {
+		ty, _ := t.typeOf(f.Type)
+		if len(f.Names) == 0 {
+			fnames, ftys = append(fnames, "Stat"), append(ftys, ty)
+		}
+		for _, fn := range f.Names {
+			fnames, ftys = append(fnames, fn.Name), append(ftys, ty)
+		}
+	}
+	var zs []string
+	allZero := true
+	for i, fn := range fnames {
+		z, ok := zeroOf(ftys[i])
+		if ftys[i].k == kSlice {
+			z, ok = "(@nil "+ident(ftys[i].name)+")", true
+		}
+		if ftys[i].k == kStrSet {
+			z, ok = "(@nil (list N))", true
+		}
+		if !ok {
+			allZero = false
+			break
+		}
+		zs = append(zs, fmt.Sprintf("%s_%s := %s", name, fn, z))
+	}
+	if allZero {
+		def += fmt.Sprintf("Definition %s_zero : %s := {| %s |}.\n", name, ident(name), strings.Join(zs, "; "))
+	}
+	for i, fn := range fnames {
+		var fs []string
+		for _, g := range fnames {
+			if g == fn {
+				fs = append(fs, fmt.Sprintf("%s_%s := x__", name, g))
+			} else {
+				fs = append(fs, fmt.Sprintf("%s_%s := %s_%s r__", name, g, name, g))
+			}
+		}
+		def += fmt.Sprintf("Definition %s_set_%s (r__ : %s) (x__ : %s) : %s := {| %s |}.\n", name, fn, ident(name), ftys[i].coq(), ident(name), strings.Join(fs, "; "))
+	}
+	t.recordZero[name] = allZero
+	t.recordDefs = append(t.recordDefs, def)
 	return nil
 }
 
@@ -528,11 +626,26 @@ func (t *tr) typeOf(e ast.Expr) (Ty, error) {
 				ty.name = x.Name
 				return ty, err
 			}
+			// a struct used by value (element of a slice, composite literal): same Record as through a pointer
+			if _, ok := t.pkg.structs[x.Name]; ok {
+				if err := t.record(e, x.Name); err != nil {
+					return Ty{}, err
+				}
+				return Ty{k: kStruct, name: x.Name}, nil
+			}
 		}
 	case *ast.ArrayType:
 		if x.Len == nil {
 			if id, ok := x.Elt.(*ast.Ident); ok && id.Name == "string" {
 				return Ty{k: kStrSlice}, nil
+			}
+			if id, ok := x.Elt.(*ast.Ident); ok && t.pkg != nil {
+				if _, ok := t.pkg.structs[id.Name]; ok {
+					if err := t.record(e, id.Name); err != nil {
+						return Ty{}, err
+					}
+					return Ty{k: kSlice, name: id.Name}, nil
+				}
 			}
 		}
 	case *ast.SelectorExpr:
@@ -541,6 +654,15 @@ func (t *tr) typeOf(e ast.Expr) (Ty, error) {
 		}
 		if p, ok := x.X.(*ast.Ident); ok && p.Name == "time" && x.Sel.Name == "Time" {
 			return Ty{k: kTime}, nil
+		}
+		if p, ok := x.X.(*ast.Ident); ok && p.Name == "os" && x.Sel.Name == "FileInfo" {
+			return Ty{k: kFileInfo}, nil
+		}
+	case *ast.MapType:
+		if k, ok := x.Key.(*ast.Ident); ok && k.Name == "string" {
+			if st, ok := x.Value.(*ast.StructType); ok && (st.Fields == nil || len(st.Fields.List) == 0) {
+				return Ty{k: kStrSet}, nil
+			}
 		}
 	case *ast.StarExpr:
 		if id, ok := x.X.(*ast.Ident); ok && t.pkg != nil {
@@ -609,6 +731,10 @@ func (t *tr) conv(n ast.Node, v val, ty Ty) (string, error) {
 	if v.ty.k == kNil {
 		switch ty.k {
 		case kStrSlice:
+			return "(@nil (list N))", nil
+		case kSlice:
+			return "(@nil " + ident(ty.name) + ")", nil
+		case kStrSet:
 			return "(@nil (list N))", nil
 		case kError:
 			return "(@None (list N))", nil
@@ -699,6 +825,11 @@ func (t *tr) expr(e ast.Expr, ev *env) (val, error) {
 		return val{}, bad(e, "identifier %s is neither a local variable nor a constant of the package", x.Name)
 	case *ast.SelectorExpr:
 		name := t.selName(x)
+		if p, ok := x.X.(*ast.Ident); ok && t.stateRecv != "" && p.Name == t.stateRecv {
+			if ty, ok := ev.lookup(p.Name + "." + x.Sel.Name); ok {
+				return val{code: ev.coqOf(p.Name + "." + x.Sel.Name), ty: ty}, nil
+			}
+		}
 		if p, ok := x.X.(*ast.Ident); ok {
 			if _, isVar := ev.lookup(p.Name); !isVar {
 				if c, ok := stdConsts[name]; ok {
@@ -713,6 +844,9 @@ func (t *tr) expr(e ast.Expr, ev *env) (val, error) {
 		r, err := t.expr(x.X, ev)
 		if err != nil {
 			return val{}, err
+		}
+		if r.ty.k == kStat && r.ty.opt {
+			return val{}, bad(e, "field read through %s, which is nil here (failed type assertion)", r.code)
 		}
 		if r.ty.k == kStat {
 			if f, ok := statFields[x.Sel.Name]; ok {
@@ -762,12 +896,16 @@ func (t *tr) expr(e ast.Expr, ev *env) (val, error) {
 		if err != nil {
 			return val{}, err
 		}
-		if s.ty.k != kString {
-			return val{}, bad(e, "indexing of %s outside the subset", s.ty)
-		}
 		ic, err := t.conv(x.Index, i, Ty{k: kInt})
 		if err != nil {
 			return val{}, err
+		}
+		if s.ty.k == kSlice && t.recordZero[s.ty.name] {
+			// s[i] on a slice of structs; out of range (a panic in Go, not modelled) yields the zero value
+			return val{code: "(Prims.nth_d " + s.code + " " + ic + " " + s.ty.name + "_zero)", ty: Ty{k: kStruct, name: s.ty.name}}, nil
+		}
+		if s.ty.k != kString {
+			return val{}, bad(e, "indexing of %s outside the subset", s.ty)
 		}
 		return val{code: "(Prims.idx " + s.code + " " + ic + ")", ty: Ty{k: kUint, bits: 8}}, nil
 	case *ast.SliceExpr:
@@ -778,8 +916,12 @@ func (t *tr) expr(e ast.Expr, ev *env) (val, error) {
 		if err != nil {
 			return val{}, err
 		}
-		if s.ty.k != kString {
+		if s.ty.k != kString && s.ty.k != kSlice && s.ty.k != kStrSlice {
 			return val{}, bad(e, "slicing of %s outside the subset", s.ty)
+		}
+		sl := "Prims.slice"
+		if s.ty.k != kString {
+			sl = "Prims.lslice" // the same on lists of any element type
 		}
 		var lo, hi string
 		if x.Low != nil {
@@ -802,15 +944,65 @@ func (t *tr) expr(e ast.Expr, ev *env) (val, error) {
 		}
 		switch {
 		case lo != "" && hi != "":
-			return val{code: "(Prims.slice " + s.code + " " + lo + " " + hi + ")", ty: s.ty}, nil
+			return val{code: "(" + sl + " " + s.code + " " + lo + " " + hi + ")", ty: s.ty}, nil
 		case lo != "":
-			return val{code: "(Prims.slice_from " + s.code + " " + lo + ")", ty: s.ty}, nil
+			return val{code: "(" + sl + "_from " + s.code + " " + lo + ")", ty: s.ty}, nil
 		case hi != "":
-			return val{code: "(Prims.slice_to " + s.code + " " + hi + ")", ty: s.ty}, nil
+			return val{code: "(" + sl + "_to " + s.code + " " + hi + ")", ty: s.ty}, nil
 		}
 		return s, nil
 	case *ast.CallExpr:
 		return t.call(x, ev, false)
+	case *ast.CompositeLit:
+		id, ok := x.Type.(*ast.Ident)
+		if !ok {
+			return val{}, bad(e, "composite literal of a type outside the subset")
+		}
+		ty, err := t.typeOf(id)
+		if err != nil || ty.k != kStruct {
+			return val{}, bad(e, "composite literal of a type outside the subset")
+		}
+		st := t.pkg.structs[id.Name]
+		given := map[string]string{}
+		for _, el := range x.Elts {
+			kv, ok := el.(*ast.KeyValueExpr)
+			if !ok {
+				return val{}, bad(el, "positional composite literal")
+			}
+			k, ok := kv.Key.(*ast.Ident)
+			if !ok {
+				return val{}, bad(el, "composite literal key")
+			}
+			fty, ok := t.structField(id.Name, k.Name)
+			if !ok {
+				return val{}, bad(el, "field %s of %s", k.Name, id.Name)
+			}
+			v, err := t.expr(kv.Value, ev)
+			if err != nil {
+				return val{}, err
+			}
+			c, err := t.conv(kv.Value, v, fty)
+			if err != nil {
+				return val{}, err
+			}
+			given[k.Name] = c
+		}
+		var fs []string
+		for _, f := range st.Fields.List {
+			fty, _ := t.typeOf(f.Type)
+			for _, fn := range f.Names {
+				c, ok := given[fn.Name]
+				if !ok {
+					z, zok := zeroOf(fty)
+					if !zok {
+						return val{}, bad(e, "field %s left out of the literal has no zero value in the subset", fn.Name)
+					}
+					c = z
+				}
+				fs = append(fs, fmt.Sprintf("%s_%s := %s", id.Name, fn.Name, c))
+			}
+		}
+		return val{code: "{| " + strings.Join(fs, "; ") + " |}", ty: ty}, nil
 	}
 	return val{}, bad(e, "expression form %T outside the subset", e)
 }
@@ -986,6 +1178,34 @@ func (t *tr) binary(x *ast.BinaryExpr, ev *env) (val, error) {
 		case token.GEQ:
 			return val{code: "(Prims.i64_leb " + bc + " " + ac + ")", ty: boolT}, nil
 		}
+	case kStrSet:
+		// m == nil: nil and empty maps are not distinguished (a write to a nil map panics in Go: not modelled)
+		if a.ty.k == kNil || b.ty.k == kNil {
+			e := ac
+			if a.ty.k == kNil {
+				e = bc
+			}
+			switch op {
+			case token.EQL:
+				return val{code: "(Prims.map_is_nil " + e + ")", ty: boolT}, nil
+			case token.NEQ:
+				return val{code: "(negb (Prims.map_is_nil " + e + "))", ty: boolT}, nil
+			}
+		}
+	case kSlice, kStrSlice:
+		// s == nil: nil and empty slices are not distinguished by the representation (README)
+		if a.ty.k == kNil || b.ty.k == kNil {
+			e := ac
+			if a.ty.k == kNil {
+				e = bc
+			}
+			switch op {
+			case token.EQL:
+				return val{code: "(Prims.slice_is_nil " + e + ")", ty: boolT}, nil
+			case token.NEQ:
+				return val{code: "(negb (Prims.slice_is_nil " + e + "))", ty: boolT}, nil
+			}
+		}
 	case kError:
 		// only comparison with nil
 		if a.ty.k == kNil || b.ty.k == kNil {
@@ -1027,6 +1247,10 @@ func (t *tr) isOptCall(e ast.Expr, ev *env) bool {
 	if !ok {
 		return false
 	}
+	if t.selName(c.Fun) == "sort.Search" {
+		_, isVar := ev.lookup("sort")
+		return !isVar
+	}
 	id, ok := c.Fun.(*ast.Ident)
 	if !ok {
 		return false
@@ -1036,6 +1260,84 @@ func (t *tr) isOptCall(e ast.Expr, ev *env) bool {
 	}
 	f, ok := t.funcs[t.dir+":"+id.Name]
 	return ok && f.opt
+}
+
+// closure translates a func literal that is passed directly to a higher-order function of Src/Prims.v
+// (it cannot escape): parameters of the given types, one result; it may read the variables around it but
+// not assign them, and contains no loop.  The Gallina function returns option (None = a loop function
+// called inside ran out of fuel).
+func (t *tr) closure(fl *ast.FuncLit, ev *env, params []Ty, res Ty, d int) (string, error) {
+	var names []*ast.Ident
+	for _, f := range fl.Type.Params.List {
+		ty, err := t.typeOf(f.Type)
+		if err != nil {
+			return "", err
+		}
+		for _, n := range f.Names {
+			if len(names) >= len(params) || !ty.eq(params[len(names)]) {
+				return "", bad(fl, "func literal: parameter types")
+			}
+			names = append(names, n)
+		}
+	}
+	if len(names) != len(params) || fl.Type.Results == nil || len(fl.Type.Results.List) != 1 || len(fl.Type.Results.List[0].Names) != 0 {
+		return "", bad(fl, "func literal: signature")
+	}
+	if rty, err := t.typeOf(fl.Type.Results.List[0].Type); err != nil || !rty.eq(res) {
+		return "", bad(fl, "func literal: result type")
+	}
+	local := map[string]bool{}
+	for _, n := range names {
+		local[n.Name] = true
+	}
+	var perr error
+	ast.Inspect(fl.Body, func(m ast.Node) bool {
+		switch s := m.(type) {
+		case *ast.ForStmt, *ast.RangeStmt, *ast.FuncLit, *ast.GoStmt, *ast.DeferStmt:
+			perr = bad(m, "loop, nested func literal, go or defer inside a func literal")
+		case *ast.AssignStmt:
+			for _, l := range s.Lhs {
+				id, ok := l.(*ast.Ident)
+				if !ok {
+					perr = bad(s, "memory write inside a func literal")
+				} else if s.Tok == token.DEFINE {
+					local[id.Name] = true
+				} else if !local[id.Name] {
+					perr = bad(s, "func literal assigns %s, a variable of the enclosing function", id.Name)
+				}
+			}
+		case *ast.IncDecStmt:
+			if id, ok := s.X.(*ast.Ident); !ok || !local[id.Name] {
+				perr = bad(s, "func literal modifies a variable of the enclosing function")
+			}
+		}
+		return true
+	})
+	if perr != nil {
+		return "", perr
+	}
+	cev := ev.clone()
+	cev.push()
+	binders := ""
+	for i, n := range names {
+		if err := cev.declare(n, n.Name, params[i]); err != nil {
+			return "", err
+		}
+		b := "_"
+		if n.Name != "_" {
+			b = cev.coqOf(n.Name)
+		}
+		binders += fmt.Sprintf(" (%s : %s)", b, params[i].coq())
+	}
+	savedCur := t.cur
+	t.cur = &funcSig{name: "func literal", params: params, res: []Ty{res}, opt: true}
+	c := &ctx{ret: func(code string) string { return "Some (" + code + ")" }, oof: "None"}
+	body, err := t.stmts(fl.Body.List, c, cev, d+1)
+	t.cur = savedCur
+	if err != nil {
+		return "", err
+	}
+	return fmt.Sprintf("(fun%s =>\n%s)", binders, body), nil
 }
 
 // callMulti: a call of a translated or external function with several results; code is a tuple
@@ -1182,7 +1484,7 @@ func (t *tr) call(x *ast.CallExpr, ev *env, allowOpt bool) (val, error) {
 			switch v.ty.k {
 			case kString:
 				return val{code: "(Prims.len " + v.code + ")", ty: Ty{k: kInt}}, nil
-			case kStrSlice:
+			case kStrSlice, kSlice:
 				return val{code: "(Prims.slen " + v.code + ")", ty: Ty{k: kInt}}, nil
 			}
 			return val{}, bad(x, "len of %s", v.ty)
@@ -1201,8 +1503,16 @@ func (t *tr) call(x *ast.CallExpr, ev *env, allowOpt bool) (val, error) {
 			if s.ty.k == kStrSlice && e.ty.k == kString {
 				return val{code: "(" + s.code + " ++ [" + e.code + "])", ty: s.ty}, nil
 			}
+			if s.ty.k == kSlice && e.ty.k == kStruct && e.ty.name == s.ty.name && !e.ty.opt {
+				return val{code: "(" + s.code + " ++ [" + e.code + "])", ty: s.ty}, nil
+			}
 			return val{}, bad(x, "append on %s", s.ty)
 		case "make":
+			if len(x.Args) >= 1 {
+				if ty, err := t.typeOf(x.Args[0]); err == nil && ty.k == kStrSet {
+					return val{code: "(@nil (list N))", ty: ty}, nil // the empty map (a size hint is irrelevant)
+				}
+			}
 			if len(x.Args) >= 2 {
 				ty, err := t.typeOf(x.Args[0])
 				if err != nil {
@@ -1214,6 +1524,14 @@ func (t *tr) call(x *ast.CallExpr, ev *env, allowOpt bool) (val, error) {
 				}
 				if ty.k == kStrSlice && n.ty.k == kUntyped && constant.Sign(n.c) == 0 {
 					return val{code: "(@nil (list N))", ty: ty}, nil
+				}
+				if ty.k == kSlice && t.recordZero[ty.name] {
+					// make([]T, n[, cap]): n zero values
+					nc, err := t.conv(x.Args[1], n, Ty{k: kInt})
+					if err != nil {
+						return val{}, err
+					}
+					return val{code: "(Prims.make_slice " + nc + " " + ty.name + "_zero)", ty: ty}, nil
 				}
 			}
 			return val{}, bad(x, "make outside the subset (only make([]string, 0[, cap]))")
@@ -1242,6 +1560,62 @@ func (t *tr) call(x *ast.CallExpr, ev *env, allowOpt bool) (val, error) {
 					r.ty.name = "os.FileMode"
 					return r, err
 				}
+				switch name {
+				case "sort.Search":
+					// sort.Search(n, func(i int) bool {..}): Go's binary search itself (Prims.sort_Search), the
+					// predicate translated as a function to option bool
+					if len(x.Args) != 2 {
+						return val{}, bad(x, "sort.Search arity")
+					}
+					fl, ok := x.Args[1].(*ast.FuncLit)
+					if !ok {
+						return val{}, bad(x, "sort.Search with a predicate that is not a func literal")
+					}
+					nv, err := t.expr(x.Args[0], ev)
+					if err != nil {
+						return val{}, err
+					}
+					nc, err := t.conv(x.Args[0], nv, Ty{k: kInt})
+					if err != nil {
+						return val{}, err
+					}
+					cl, err := t.closure(fl, ev, []Ty{{k: kInt}}, Ty{k: kBool}, 2)
+					if err != nil {
+						return val{}, err
+					}
+					code := "(Prims.sort_Search " + nc + " " + cl + ")"
+					if allowOpt {
+						return val{code: code, ty: Ty{k: kInt}}, nil
+					}
+					if t.noHoist {
+						return val{}, bad(x, "sort.Search inside a loop condition")
+					}
+					t.nhoist++
+					v := fmt.Sprintf("c__%d", t.nhoist)
+					t.hoisted = append(t.hoisted, [2]string{code, v})
+					return val{code: v, ty: Ty{k: kInt}}, nil
+				case "errors.Errorf", "errors.New":
+					// a non-nil error; its text is not modelled (the arguments are not looked at)
+					return val{code: "Prims.some_error", ty: Ty{k: kError}}, nil
+				case "errors.WithStack", "errors.Wrap", "errors.Wrapf", "errors.WithMessage":
+					// nil for nil, otherwise a non-nil error
+					if len(x.Args) < 1 {
+						return val{}, bad(x, "%s arity", name)
+					}
+					if u, ok := x.Args[0].(*ast.UnaryExpr); ok && u.Op == token.AND {
+						if _, ok := u.X.(*ast.CompositeLit); ok {
+							return val{code: "Prims.some_error", ty: Ty{k: kError}}, nil // &T{..} is never nil
+						}
+					}
+					v, err := t.expr(x.Args[0], ev)
+					if err != nil {
+						return val{}, err
+					}
+					if v.ty.k != kError {
+						return val{}, bad(x, "%s of a value of type %s", name, v.ty)
+					}
+					return val{code: "(Prims.errors_WithStack " + v.code + ")", ty: Ty{k: kError}}, nil
+				}
 				sf, ok := stdFuncs[name]
 				if !ok {
 					return val{}, bad(x, "%s is not in the table of standard-library meanings", name)
@@ -1256,6 +1630,12 @@ func (t *tr) call(x *ast.CallExpr, ev *env, allowOpt bool) (val, error) {
 		r, err := t.expr(f.X, ev)
 		if err != nil {
 			return val{}, err
+		}
+		if r.ty.k == kFileInfo && f.Sel.Name == "IsDir" && len(x.Args) == 0 {
+			return val{code: "(Prims.fi_IsDir " + r.code + ")", ty: Ty{k: kBool}}, nil
+		}
+		if r.ty.k == kFileInfo && f.Sel.Name == "Mode" && len(x.Args) == 0 {
+			return val{code: "(Prims.fi_Mode " + r.code + ")", ty: Ty{k: kUint, bits: 32, name: "os.FileMode"}}, nil
 		}
 		if r.ty.k == kUint && r.ty.name == "os.FileMode" && f.Sel.Name == "IsDir" && len(x.Args) == 0 {
 			return val{code: "(Prims.FileMode_IsDir " + r.code + ")", ty: Ty{k: kBool}}, nil
@@ -1487,17 +1867,99 @@ func (t *tr) stmts1(list []ast.Stmt, c *ctx, ev *env, d int) (string, error) {
 		}
 		return "", bad(x, "%s outside the subset", x.Tok)
 	case *ast.IncDecStmt:
-		id, ok := x.X.(*ast.Ident)
-		if !ok {
-			return "", bad(x, "++/-- on a non-variable")
-		}
 		op := token.ADD
 		if x.Tok == token.DEC {
 			op = token.SUB
 		}
+		id, ok := x.X.(*ast.Ident)
+		if !ok && t.stateRecv != "" {
+			// a place inside the receiver of a state transformer: x++  is  x = x + 1
+			as := &ast.AssignStmt{Lhs: []ast.Expr{x.X}, TokPos: x.TokPos, Tok: token.ASSIGN,
+				Rhs: []ast.Expr{&ast.BinaryExpr{X: x.X, OpPos: x.TokPos, Op: op, Y: &ast.BasicLit{ValuePos: x.TokPos, Kind: token.INT, Value: "1"}}}}
+			return t.stmts(concat([]ast.Stmt{as}, rest), c, ev, d)
+		}
+		if !ok {
+			return "", bad(x, "++/-- on a non-variable")
+		}
 		be := &ast.BinaryExpr{X: id, OpPos: x.TokPos, Op: op, Y: &ast.BasicLit{ValuePos: x.TokPos, Kind: token.INT, Value: "1"}}
 		return t.assign(x, id, be, false, rest, c, ev, d)
 	case *ast.AssignStmt:
+		if len(x.Lhs) == 2 && len(x.Rhs) == 1 && x.Tok == token.DEFINE {
+			v0, ok0 := x.Lhs[0].(*ast.Ident)
+			v1, ok1 := x.Lhs[1].(*ast.Ident)
+			// _, ok := m[k] on a set
+			if ie, ok := x.Rhs[0].(*ast.IndexExpr); ok && ok0 && ok1 {
+				m, err := t.expr(ie.X, ev)
+				if err != nil {
+					return "", err
+				}
+				if m.ty.k == kStrSet {
+					if v0.Name != "_" {
+						return "", bad(x, "the value of a map[string]struct{} element")
+					}
+					kv, err := t.expr(ie.Index, ev)
+					if err != nil {
+						return "", err
+					}
+					kc, err := t.conv(ie.Index, kv, Ty{k: kString})
+					if err != nil {
+						return "", err
+					}
+					if inTop(ev, v1.Name) {
+						return "", bad(x, "%s redeclared", v1.Name)
+					}
+					if err := ev.declare(x, v1.Name, Ty{k: kBool}); err != nil {
+						return "", err
+					}
+					r, err := t.stmts(rest, c, ev, d)
+					if err != nil {
+						return "", err
+					}
+					if v1.Name == "_" {
+						return r, nil
+					}
+					return fmt.Sprintf("%slet %s := (Prims.set_mem %s %s) in\n%s", ind(d), ev.coqOf(v1.Name), kc, m.code, r), nil
+				}
+			}
+			// stat, ok := fi.Sys().(*types.Stat): a match on the Sys field of the FileInfo record; where the
+			// assertion fails ok is false and stat is nil (any use of it there is untranslatable)
+			if ta, ok := x.Rhs[0].(*ast.TypeAssertExpr); ok && ok0 && ok1 && ta.Type != nil {
+				aty, err := t.typeOf(ta.Type)
+				ce, isCall := ta.X.(*ast.CallExpr)
+				if err == nil && aty.k == kStat && isCall && len(ce.Args) == 0 {
+					if se, ok := ce.Fun.(*ast.SelectorExpr); ok && se.Sel.Name == "Sys" {
+						fv, err := t.expr(se.X, ev)
+						if err != nil {
+							return "", err
+						}
+						if fv.ty.k == kFileInfo && v0.Name != "_" && v1.Name != "_" && !inTop(ev, v0.Name) && !inTop(ev, v1.Name) {
+							evS, evN := ev.clone(), ev.clone()
+							for _, e2 := range []*env{evS, evN} {
+								if err := e2.declare(x, v0.Name, Ty{k: kStat, opt: e2 == evN}); err != nil {
+									return "", err
+								}
+								if err := e2.declare(x, v1.Name, Ty{k: kBool}); err != nil {
+									return "", err
+								}
+							}
+							evS.setKnown(v1.Name, 1)
+							evN.setKnown(v1.Name, 2)
+							a, err := t.stmts(rest, c, evS, d+1)
+							if err != nil {
+								return "", err
+							}
+							b, err := t.stmts(rest, c, evN, d+1)
+							if err != nil {
+								return "", err
+							}
+							return fmt.Sprintf("%smatch (Prims.fi_Sys %s) with\n%s| Some %s =>\n%s  let %s := true in\n%s\n%s| None =>\n%s  let %s := false in\n%s\n%send",
+								ind(d), fv.code, ind(d), evS.coqOf(v0.Name), ind(d), evS.coqOf(v1.Name), a, ind(d), ind(d), evN.coqOf(v1.Name), b, ind(d)), nil
+						}
+					}
+				}
+				return "", bad(x, "type assertion outside the subset (only x, ok := fi.Sys().(*types.Stat))")
+			}
+		}
 		if len(x.Lhs) > 1 && len(x.Rhs) == 1 && (x.Tok == token.DEFINE || x.Tok == token.ASSIGN) {
 			if ce, ok := x.Rhs[0].(*ast.CallExpr); ok {
 				code, res, ok, err := t.callMulti(ce, ev)
@@ -1538,6 +2000,53 @@ func (t *tr) stmts1(list []ast.Stmt, c *ctx, ev *env, d int) (string, error) {
 			return "", bad(x, "multiple assignment outside the subset")
 		}
 		id, ok := x.Lhs[0].(*ast.Ident)
+		if !ok && t.stateRecv != "" && x.Tok == token.ASSIGN {
+			// a write into the receiver of a state-transformer method: the field variable is rebuilt
+			if ie, ok := x.Lhs[0].(*ast.IndexExpr); ok {
+				if m, err := t.expr(ie.X, ev); err == nil && m.ty.k == kStrSet {
+					cl, ok := x.Rhs[0].(*ast.CompositeLit)
+					if st, ok2 := func() (*ast.StructType, bool) {
+						if !ok {
+							return nil, false
+						}
+						s, ok := cl.Type.(*ast.StructType)
+						return s, ok
+					}(); !ok2 || (st.Fields != nil && len(st.Fields.List) != 0) || len(cl.Elts) != 0 {
+						return "", bad(x, "value stored in a map[string]struct{} is not struct{}{}")
+					}
+					pseudo, code, err := t.stateLhs(x.Lhs[0], "", ev)
+					if err != nil {
+						return "", err
+					}
+					r, err := t.stmts(rest, c, ev, d)
+					if err != nil {
+						return "", err
+					}
+					return fmt.Sprintf("%slet %s := %s in\n%s", ind(d), ev.coqOf(pseudo), code, r), nil
+				}
+			}
+			lt, err := t.expr(x.Lhs[0], ev)
+			if err != nil {
+				return "", err
+			}
+			rv, err := t.expr(x.Rhs[0], ev)
+			if err != nil {
+				return "", err
+			}
+			rc, err := t.conv(x.Rhs[0], rv, lt.ty)
+			if err != nil {
+				return "", err
+			}
+			pseudo, code, err := t.stateLhs(x.Lhs[0], rc, ev)
+			if err != nil {
+				return "", err
+			}
+			r, err := t.stmts(rest, c, ev, d)
+			if err != nil {
+				return "", err
+			}
+			return fmt.Sprintf("%slet %s := %s in\n%s", ind(d), ev.coqOf(pseudo), code, r), nil
+		}
 		if !ok {
 			return "", bad(x, "assignment to a non-variable (memory writes are outside the subset)")
 		}
@@ -1563,6 +2072,35 @@ func (t *tr) stmts1(list []ast.Stmt, c *ctx, ev *env, d int) (string, error) {
 			var body []ast.Stmt
 			body = append(body, x.Init, &ast.IfStmt{If: x.If, Cond: x.Cond, Body: x.Body, Else: x.Else})
 			return t.stmts(concat(body, popMark, rest), c, ev, d)
+		}
+		// a condition `ok` / `!ok` whose value is fixed on this path (the ok of a type assertion): only the
+		// branch that is taken is translated
+		{
+			var cid *ast.Ident
+			neg := false
+			switch ce := x.Cond.(type) {
+			case *ast.Ident:
+				cid = ce
+			case *ast.UnaryExpr:
+				if id, ok := ce.X.(*ast.Ident); ok && ce.Op == token.NOT {
+					cid, neg = id, true
+				}
+			}
+			if cid != nil {
+				if kb := ev.known(cid.Name); kb != 0 {
+					if _, sh := ev.lookup("true"); !sh {
+						taken := (kb == 1) != neg
+						if taken {
+							return t.stmts(concat([]ast.Stmt{x.Body}, popMark, rest), c, ev, d)
+						}
+						var els []ast.Stmt
+						if x.Else != nil {
+							els = []ast.Stmt{x.Else}
+						}
+						return t.stmts(concat(els, popMark, rest), c, ev, d)
+					}
+				}
+			}
 		}
 		// nil test of a possibly-nil struct pointer: a match that rebinds the variable, as the struct itself, in
 		// the branch where it is not nil (there, and in the copy of the following code, fields can be read)
@@ -1680,13 +2218,102 @@ func (t *tr) stmts1(list []ast.Stmt, c *ctx, ev *env, d int) (string, error) {
 				}
 			}
 		}
-		return "", bad(s, "expression statement outside the subset (only panic(..))")
+		if ce, ok := x.X.(*ast.CallExpr); ok && t.stateRecv != "" && len(ce.Args) == 2 {
+			if id, ok := ce.Fun.(*ast.Ident); ok && id.Name == "delete" {
+				if _, isVar := ev.lookup("delete"); !isVar {
+					m, err := t.expr(ce.Args[0], ev)
+					if err != nil {
+						return "", err
+					}
+					if m.ty.k != kStrSet {
+						return "", bad(s, "delete on %s", m.ty)
+					}
+					kv, err := t.expr(ce.Args[1], ev)
+					if err != nil {
+						return "", err
+					}
+					kc, err := t.conv(ce.Args[1], kv, Ty{k: kString})
+					if err != nil {
+						return "", err
+					}
+					pseudo, code, err := t.stateLhs(ce.Args[0], "(Prims.set_del "+m.code+" "+kc+")", ev)
+					if err != nil {
+						return "", err
+					}
+					r, err := t.stmts(rest, c, ev, d)
+					if err != nil {
+						return "", err
+					}
+					return fmt.Sprintf("%slet %s := %s in\n%s", ind(d), ev.coqOf(pseudo), code, r), nil
+				}
+			}
+		}
+		return "", bad(s, "expression statement outside the subset (only panic(..), delete on a state map)")
 	case *ast.SwitchStmt:
 		return t.switchStmt(x, rest, c, ev, d)
 	case *ast.ForStmt, *ast.RangeStmt:
 		return t.loop(x, "", rest, c, ev, d)
 	}
 	return "", bad(s, "statement form %T outside the subset", s)
+}
+
+// stateLhs: the new value of the receiver field that the assignment lhs = newVal writes into
+// (lhs is recv.f, or x[i] / x.g with x such a place)
+func (t *tr) stateLhs(lhs ast.Expr, newVal string, ev *env) (string, string, error) {
+	switch l := lhs.(type) {
+	case *ast.ParenExpr:
+		return t.stateLhs(l.X, newVal, ev)
+	case *ast.SelectorExpr:
+		if id, ok := l.X.(*ast.Ident); ok && id.Name == t.stateRecv {
+			name := id.Name + "." + l.Sel.Name
+			if _, ok := ev.lookup(name); ok {
+				return name, newVal, nil
+			}
+			return "", "", bad(lhs, "no field %s in the receiver", l.Sel.Name)
+		}
+		cur, err := t.expr(l.X, ev)
+		if err != nil {
+			return "", "", err
+		}
+		if cur.ty.k != kStruct || cur.ty.opt {
+			return "", "", bad(lhs, "write through %s", cur.ty)
+		}
+		if _, ok := t.structField(cur.ty.name, l.Sel.Name); !ok {
+			return "", "", bad(lhs, "field %s of %s", l.Sel.Name, cur.ty)
+		}
+		return t.stateLhs(l.X, "("+cur.ty.name+"_set_"+l.Sel.Name+" "+cur.code+" "+newVal+")", ev)
+	case *ast.IndexExpr:
+		cur, err := t.expr(l.X, ev)
+		if err != nil {
+			return "", "", err
+		}
+		if cur.ty.k == kStrSet {
+			// m[k] = struct{}{}: k joins the set
+			kv, err := t.expr(l.Index, ev)
+			if err != nil {
+				return "", "", err
+			}
+			kc, err := t.conv(l.Index, kv, Ty{k: kString})
+			if err != nil {
+				return "", "", err
+			}
+			return t.stateLhs(l.X, "(Prims.set_add "+cur.code+" "+kc+")", ev)
+		}
+		if cur.ty.k != kSlice {
+			return "", "", bad(lhs, "element write on %s", cur.ty)
+		}
+		iv, err := t.expr(l.Index, ev)
+		if err != nil {
+			return "", "", err
+		}
+		ic, err := t.conv(l.Index, iv, Ty{k: kInt})
+		if err != nil {
+			return "", "", err
+		}
+		// out of range is a panic in Go (not modelled): the list is then unchanged
+		return t.stateLhs(l.X, "(Prims.list_set "+cur.code+" "+ic+" "+newVal+")", ev)
+	}
+	return "", "", bad(lhs, "assignment to a place that is not part of the receiver (memory writes are outside the subset)")
 }
 
 func (t *tr) assign(n ast.Node, id *ast.Ident, rhs ast.Expr, define bool, rest []ast.Stmt, c *ctx, ev *env, d int) (string, error) {
@@ -1705,6 +2332,7 @@ func (t *tr) assign(n ast.Node, id *ast.Ident, rhs ast.Expr, define bool, rest [
 	var ty Ty
 	if old, ok := ev.lookup(id.Name); ok && (!define || inTop(ev, id.Name)) {
 		// assignment (or := re-using a variable of the same scope)
+		ev.setKnown(id.Name, 0)
 		ty = old
 		if code, err = t.conv(rhs, v, ty); err != nil {
 			return "", err
@@ -1928,6 +2556,9 @@ func isNil(n ast.Node) bool {
 }
 
 func (t *tr) loop(s ast.Stmt, label string, rest []ast.Stmt, c *ctx, ev *env, d int) (string, error) {
+	if t.stateRecv != "" && identsIn(s)[t.stateRecv] {
+		return "", bad(s, "loop that mentions the receiver of a state-transformer method")
+	}
 	switch x := s.(type) {
 	case *ast.ForStmt:
 		if x.Init != nil {
@@ -2330,6 +2961,9 @@ func hasLoopOrOptCall(t *tr, fd *ast.FuncDecl) bool {
 					found = true
 				}
 			}
+			if t.selName(x.Fun) == "sort.Search" {
+				found = true
+			}
 		}
 		return true
 	})
@@ -2474,6 +3108,33 @@ func (t *tr) function(fd *ast.FuncDecl, e entry) (string, error) {
 		}
 	}
 	sig.opt = hasLoopOrOptCall(t, fd)
+	t.stateRecv = ""
+	stateInit, stateVal, stateTy := "", "", ""
+	if e.state {
+		if fd.Recv == nil || e.recv == "" {
+			return "", bad(fd, "state transformer without receiver")
+		}
+		rn := fd.Recv.List[0].Names[0].Name
+		st := t.pkg.structs[e.recv]
+		if st == nil {
+			return "", bad(fd, "receiver type")
+		}
+		var fs []string
+		for _, f := range st.Fields.List {
+			fty, err := t.typeOf(f.Type)
+			if err != nil {
+				return "", err
+			}
+			for _, fn := range f.Names {
+				coq := ident(rn + "_" + fn.Name)
+				ev.declareAs(rn+"."+fn.Name, fty, coq)
+				stateInit += fmt.Sprintf("  let %s := (%s_%s %s) in\n", coq, e.recv, fn.Name, ident(rn))
+				fs = append(fs, fmt.Sprintf("%s_%s := %s", e.recv, fn.Name, coq))
+			}
+		}
+		t.stateRecv, stateVal, stateTy = rn, "{| "+strings.Join(fs, "; ")+" |}", ident(e.recv)
+		sig.state = true
+	}
 	t.cur, t.goName, t.aux, t.nloop = sig, fd.Name.Name, nil, 0
 	t.hoisted, t.nhoist, t.noHoist = nil, 0, false
 	if e.as != "" {
@@ -2481,8 +3142,14 @@ func (t *tr) function(fd *ast.FuncDecl, e entry) (string, error) {
 	}
 	c := &ctx{ret: func(code string) string { return code }}
 	rty := t.resCoq()
+	if e.state {
+		// every return hands back the receiver as it is at that point, with the results
+		c.ret = func(code string) string { return "(" + stateVal + ", " + code + ")" }
+		rty = "(" + stateTy + " * " + rty + ")"
+	}
 	if sig.opt {
-		c.ret = func(code string) string { return "Some (" + code + ")" }
+		inner := c.ret
+		c.ret = func(code string) string { return "Some (" + inner(code) + ")" }
 		c.oof = "None"
 		rty = "option " + rty
 	}
@@ -2491,7 +3158,8 @@ func (t *tr) function(fd *ast.FuncDecl, e entry) (string, error) {
 	if err != nil {
 		return "", err
 	}
-	body = namedInit + body
+	body = stateInit + namedInit + body
+	t.stateRecv = ""
 	var b strings.Builder
 	for _, a := range t.aux {
 		b.WriteString(a + "\n")
@@ -2519,7 +3187,7 @@ func main() {
 
 // translate never fails: whatever cannot be translated becomes an UNTRANSLATABLE comment
 func translate(root string, whitelist []entry) string {
-	t := &tr{fset: token.NewFileSet(), funcs: map[string]*funcSig{}, pkgs: map[string]*pkgInfo{}, records: map[string]bool{}, iota: -1}
+	t := &tr{fset: token.NewFileSet(), funcs: map[string]*funcSig{}, pkgs: map[string]*pkgInfo{}, records: map[string]bool{}, recordZero: map[string]bool{}, iota: -1}
 	files := map[string]*ast.File{}
 	var out strings.Builder
 	out.WriteString("(* GENERATED by tools/go2coq from the Go sources on every run of ./check — do not edit.\n")
